@@ -577,6 +577,22 @@ func c08RunUnits(expr string, stream []int, canon *mc.Canon) (key, msg string) {
 			}
 			seen = append(seen, obs{k, tuple})
 		}
+		// the whole-result key of the same projection, asked AFTER the per-measurement keys: its .unit is empty, its
+		// other fields are the result's, and it equals the whole-result key of every result with the same tuple
+		wk := p.Project(res)
+		if got := wk.Get(uf); got != "" {
+			return "", fmt.Sprintf("expression %q with .unit: Project(%v) after ProjectValues has .unit = %q, want empty", expr, r, got)
+		}
+		if m := keyFields(p, wk, expr, []string{expr}, r); m != "" {
+			return "", m
+		}
+		wt := refTuple(expr, []string{expr}, r) + "\x04"
+		for _, o := range seen {
+			if (o.k == wk) != (o.tuple == wt) {
+				return "", fmt.Sprintf("expression %q with .unit: whole-result key equality %v but tuple equality %v (%q vs %q)", expr, o.k == wk, o.tuple == wt, o.tuple, wt)
+			}
+		}
+		seen = append(seen, obs{wk, wt})
 	}
 	if canon != nil {
 		key = canon.Key(&pp, p)
